@@ -202,6 +202,28 @@ def _check_ops_static(attr, dims):
                 bad.append(f"get_bound_ops: bound[{d},{k}] = {gb}, layout says {b}")
             if gs != s:
                 bad.append(f"get_step_ops: step[{d},{k}] = {gs}, layout says {s}")
+    if sum(len(d) for d in dims) <= 2:
+        bad += _check_steps_in_bytes(attr, [list(d) for d in dims], shp, 4)
+    return bad
+
+
+def _check_steps_in_bytes(attr, inst_dims, shp, elw):
+    """the byte-step view used by DMA loop nests and allocation sizes: get_step_ops(..., memref, in_bytes=True) = steps x element size"""
+    from xdsl.dialects.arith import ConstantOp
+    from xdsl.dialects.builtin import IntegerType
+
+    bad = []
+    mty = MemRefType(IntegerType(8 * elw), [(-1 if any(b is None for b, _ in d) else n) for d, n in zip([[(s.bound, s.step) for s in ts.strides] for ts in attr.data.tstrides], shp)], attr)
+    blk = Block(arg_types=[mty])
+    shape_ops = [ConstantOp.from_int_and_width(n, IndexType()) for n in shp]
+    ops, bmap = attr.get_bound_ops(list(shape_ops))
+    sops, smap = attr.get_step_ops(bmap, blk.args[0], in_bytes=True)
+    it = _run_ops(shape_ops + ops + sops)
+    for d, dim in enumerate(inst_dims):
+        for k, (b, s) in enumerate(dim):
+            gs = it.get(smap[(d, k)].results[0])
+            if gs != s * elw:
+                bad.append(f"get_step_ops(in_bytes): byte step[{d},{k}] = {gs}, layout step {s} x {elw} bytes = {s * elw}")
     return bad
 
 
@@ -305,6 +327,8 @@ def eval_dynamic(r: CaseResult, comp, flat, mask, rt, offset):
             if gs != s:
                 bad.append(f"get_step_ops: run-time step[{d},{k}] = {gs}, contiguity rule gives {s}")
         got_dims.append(gd)
+    if not bad:
+        bad += _check_steps_in_bytes(attr, [list(d) for d in want], shp, 4)
     # canonicalize() on a dynamic layout: compared on what is static — per-dimension shape factors, the dynamic
     # pattern, and the address contribution of every static stride. (The run-time value of a dynamic step is defined
     # by the contiguity rule on the *representation*; canonicalize() is applied to static layouts only in the tree, so
